@@ -64,7 +64,8 @@ def init_cases(draw):
     fan_based = name.startswith(("xavier", "kaiming"))
     c = {"init": name, "shape": draw(big_shape(2 if fan_based else 1)),
          "dtype": draw(st.sampled_from(["float32", "float32", "float64"])),
-         "rg": draw(st.booleans()), "seed": draw(st.integers(0, 2 ** 31 - 1))}
+         "rg": draw(st.booleans()), "seed": draw(st.integers(0, 2 ** 31 - 1)),
+         "layout": draw(st.sampled_from(["C", "C", "F", "strided", "transposed_view"]))}
     if name == "uniform_":
         lo = draw(st.sampled_from([0.0, -1.0, -0.05, 2.0]))
         c["a"], c["b"] = lo, lo + draw(st.sampled_from([1.0, 0.1, 3.0]))
@@ -73,7 +74,7 @@ def init_cases(draw):
         c["mean"], c["std"] = draw(st.sampled_from([0.0, 1.5, -2.0])), draw(st.sampled_from([1.0, 0.02, 3.0]))
         c["defaults"] = draw(st.booleans())
     elif name == "constant_":
-        c["val"] = draw(st.sampled_from([0.0, 1.0, -2.5, 0.3, 7]))
+        c["val"] = draw(st.sampled_from([0.0, 1.0, -2.5, 0.3, 7, 0.1, 1e-60, 16777217, -1e60, 1 / 3]))
     elif name.startswith("xavier"):
         c["gain"] = draw(st.sampled_from([1.0, 1.0, 0.1, 0.5, 2.0, 4.0, 5.0 / 3]))
         c["default_gain"] = c["gain"] == 1.0 and draw(st.booleans())
@@ -117,7 +118,15 @@ def check_init(c, rec):
     name = c["init"]
     dt = np.dtype(c["dtype"])
     shp = tuple(c["shape"])
-    t = Tensor(np.full(shp, 123.0, dtype=dt), requires_grad=c["rg"])
+    base = np.full(shp, 123.0, dtype=dt)
+    lay = c.get("layout", "C")
+    if lay == "F" and len(shp) >= 2:
+        base = np.asfortranarray(base)
+    elif lay == "strided":
+        base = np.full(shp[:-1] + (2 * shp[-1],), 123.0, dtype=dt)[..., ::2]
+    elif lay == "transposed_view" and len(shp) >= 2:
+        base = np.full(shp[::-1], 123.0, dtype=dt).T
+    t = Tensor(base, requires_grad=c["rg"])
     ctx = f"{c}"
     fan_in = shp[1] * int(np.prod(shp[2:])) if len(shp) >= 2 else None
     fan_out = shp[0] * int(np.prod(shp[2:])) if len(shp) >= 2 else None
@@ -158,8 +167,10 @@ def check_init(c, rec):
         _stats_normal(name, d, mu, sd, ctx)
         nt = not c["defaults"]
     elif name == "constant_":
-        if not np.all(t.data == np.asarray(c["val"]).astype(dt)):
-            raise Violation("value", f"constant_: not all {c['val']}", region=name)
+        with np.errstate(all="ignore"):
+            wantv = np.asarray(c["val"], dtype=np.float64).astype(dt)
+        if not np.all(t.data == wantv):
+            raise Violation("value", f"constant_: tensor holds {np.asarray(t.data).ravel()[0]!r}, not {c['val']!r} rounded once to {dt}", region=name)
     elif name == "ones_":
         if not np.all(t.data == 1):
             raise Violation("value", "ones_: not all ones", region=name)
@@ -183,7 +194,7 @@ def check_init(c, rec):
         _stats_normal(name, d, 0.0, sd_, ctx + f" fan={fan} gain={gain} std={sd_}")
         nt = fan_in != fan_out and (mode != "fan_in" or nl != "leaky_relu" or a != 0)
     rec.nontrivial(nt)
-    rec.tag(name, c["dtype"])
+    rec.tag(name, c["dtype"], "layout_" + lay)
 
 
 # ---- structural: small shapes, rejection of bad arguments, gain table ---------------------------------
